@@ -1,4 +1,4 @@
 SPECIFICATION Spec
-CONSTANTS Slots = {1,2,3} Fams = {"dv","csr"} Depth = 3 EmitOn = FALSE
+CONSTANTS Slots = {1,2,3} Fams = {"dv","csr"} Depth = 3 EmitOn = FALSE Ops = {"all"}
 INVARIANTS RefCount NoLeak NoDangling EmptyAtEnd NullNeverCounted TypeOK
 CHECK_DEADLOCK FALSE
